@@ -18,6 +18,10 @@ _real_lock = threading.Lock
 _real_rlock = threading.RLock
 
 
+class SimLockLeak(Exception):
+    pass
+
+
 class SimLock:
     def __init__(self):
         self._real = _thread.allocate_lock()
@@ -26,7 +30,13 @@ class SimLock:
         t = K.current_thread()
         k = K._K
         if t is None or k is None or t.ident != _thread.get_ident():
-            return self._real.acquire(blocking, timeout) if blocking else self._real.acquire(False)
+            # not a simulated thread (sequential reference pass, generation): nothing else runs then, so a
+            # lock that is held now was leaked by a thread that has ended and will never be released
+            if self._real.acquire(False):
+                return True
+            if not blocking:
+                return False
+            raise SimLockLeak('a library lock is still held by a thread that has ended')
         if self._real.acquire(False):
             return True
         if not blocking:
